@@ -303,6 +303,7 @@ pub struct RunLog {
     pub raw: Vec<RawEv>,
     pub calls: Vec<super::Call>,
     pub dispatched: Vec<verif_hooks::Dispatched>,
+    pub observed: Vec<verif_hooks::FinishObserved>,
     pub quiescent: Vec<Quiescent>,
     pub polls: usize,
     pub end: RunEnd,
@@ -431,6 +432,7 @@ pub fn run_case(case: &RCase, sched: &mut Schedule<'_>) -> RunLog {
         }
     });
     let _ = verif_hooks::take_dispatched();
+    let _ = verif_hooks::take_observed();
     verif_hooks::set_idle_limit(IDLE_LIMIT);
     let _ = verif_hooks::reset_idle_turns();
     install_probe_hook();
@@ -617,6 +619,7 @@ pub fn run_case(case: &RCase, sched: &mut Schedule<'_>) -> RunLog {
         raw,
         calls,
         dispatched: verif_hooks::take_dispatched(),
+        observed: verif_hooks::take_observed(),
         quiescent,
         polls,
         end,
